@@ -158,6 +158,8 @@ EXPECT = {
   "write_ended_inside_pcm_frame"
  ],
  "C02": [
+  "byte_writer_flushed_between_writes",
+  "sizes_padding_fits_seektable_within_4_bytes",
   "sizes_block_size_table_neighbourhood",
   "sizes_final_frame_length_from_table_neighbourhood",
   "assign_independent",
@@ -296,6 +298,7 @@ EXPECT = {
   "c07_consume_partial"
  ],
  "C08": [
+  "byte_writer_flushed_between_writes",
   "c08_block_larger_than_64k_of_pcm",
   "c08_only_partial_frame_after_whole_blocks",
   "c08_trailing_partial_frame",
@@ -307,6 +310,7 @@ EXPECT = {
   "write_ended_inside_pcm_frame"
  ],
  "C09": [
+  "sizes_padding_fits_seektable_within_4_bytes",
   "sizes_block_size_table_neighbourhood",
   "sizes_final_frame_length_from_table_neighbourhood",
   "c09_more_frames_than_max_points",
@@ -338,6 +342,7 @@ EXPECT = {
   "c10_several_padding_blocks"
  ],
  "C11": [
+  "cue_cdda_lead_in_other_than_88200",
   "c11_streaminfo_is_the_only_block",
   "cue_non_cdda_accepted",
   "cue_non_cdda_accepted_254_tracks",
@@ -415,6 +420,7 @@ EXPECT = {
   "c16_sync_split_across_refill"
  ],
  "C17": [
+  "syn_variable_blocking_strategy",
   "dmg_all_ones_run",
   "dmg_all_zeros_run",
   "rd_depth_coded_as_see_streaminfo",
